@@ -10,6 +10,11 @@ From Abacus.Common Require Import Arr.
 From Abacus.C11 Require Import Gen Interp.
 From Abacus.C19 Require Gen Spec Proofs.
 From Abacus.C07 Require Gen Model Decide Rows.
+From Abacus.C06 Require Properties.
+From Abacus.C04 Require Properties.
+From Abacus.C15 Require Properties.
+From Abacus.C17 Require Properties.
+From Abacus.C01 Require Properties.
 Import ListNotations.
 Local Open Scope Z_scope.
 
@@ -48,3 +53,68 @@ Theorem tsc_rows_in_bounds : forall n D O X,
   forall a, In a (C07.Model.rows n D O X) -> 0 <= a < n.
 Proof. exact C07.Rows.rows_in_grid_lemma. Qed.
 Print Assumptions tsc_rows_in_bounds.
+
+(* mass assignment (TSC and CIC): all 27 (9) read-modify-writes of every particle, on every grid shape, under the exact
+   per-axis index condition that the documented domain satisfies (the C06 theorems domain_admissible_tsc, _tsc_no_offset, _cic) *)
+Theorem scatter_in_bounds : forall k box off hw ps G,
+  C06.Arr3.wf3 G -> 0 < C06.Arr3.d0 G -> 0 < C06.Arr3.d1 G -> 0 < C06.Arr3.d2 G -> (0 < box)%Q ->
+  Forall (C06.Spec.adm k box off (C06.Arr3.d0 G) (C06.Arr3.d1 G) (C06.Arr3.d2 G)) ps ->
+  C06.Model.scatter k box off hw ps G <> Oob.
+Proof.
+  intros k box off hw ps G H1 H2 H3 H4 H5 H6.
+  destruct (C06.Properties.indices_in_bounds k box off hw ps G H1 H2 H3 H4 H5 H6) as [G' [E _]].
+  rewrite E. discriminate.
+Qed.
+Print Assumptions scatter_in_bounds.
+
+(* RVint decoder (kernel + wrapper): every output-selection mode, supplied buffers at least as long as the input *)
+Theorem unpack_rvint_in_bounds : forall intdata box ps vs,
+  C04.KernelProofs.sel_fits (length intdata) ps -> C04.KernelProofs.sel_fits (length intdata) vs ->
+  C04.Model.unpack_rvint intdata box ps vs <> Oob.
+Proof.
+  intros intdata box ps vs H1 H2. rewrite (C04.Properties.unpack_rvint_selection intdata box ps vs H1 H2). discriminate.
+Qed.
+Print Assumptions unpack_rvint_in_bounds.
+
+(* aux/PID decoder: every subset of the five flags *)
+Theorem unpack_pids_in_bounds : forall packed box ppd f,
+  (C04.Model.want_lagr_pos f = true -> box <> None /\ ppd <> None) ->
+  C04.Model.unpack_pids packed box ppd f <> Oob.
+Proof.
+  intros packed box ppd f H. rewrite (C04.Properties.unpack_pids_selection packed box ppd f H). discriminate.
+Qed.
+Print Assumptions unpack_pids_in_bounds.
+
+(* pack9 kernel: the write index never overruns an output that has at least one row per non-header record; empty stream,
+   leading particles, consecutive headers included *)
+Theorem unpack_pack9_in_bounds : forall box velz data po vo,
+  (forall b, po = Some b -> (C15.Proofs.npart9 data <= length b)%nat) ->
+  (forall b, vo = Some b -> (C15.Proofs.npart9 data <= length b)%nat) ->
+  C15.Model.p9_kernel data box velz po vo <> Oob.
+Proof.
+  intros box velz data po vo H1 H2. rewrite (C15.Properties.unpack_kernel box velz data po vo H1 H2). discriminate.
+Qed.
+Print Assumptions unpack_pack9_in_bounds.
+
+(* parallel partition: histogram, prefix sums and the scatter with per-(thread, key) cursors, for every thread count, any
+   monotone block boundaries, empty input and more threads than particles included *)
+Theorem partition_parallel_in_bounds :
+  forall (P W C : Type) (keyf : P -> Z) (cv : P -> C) (argsort : list C -> list nat)
+    nthread npartition tstart pos (wts : option (list W)) keys0 psort0 wsort0,
+  C17.ProofsTop.preconditions keyf nthread npartition tstart pos wts keys0 psort0 wsort0 ->
+  C17.Model.partition_model P W C keyf cv argsort nthread npartition tstart pos wts false keys0 psort0 wsort0 <> Oob.
+Proof.
+  intros P W C keyf cv argsort nthread npartition tstart pos wts keys0 psort0 wsort0 H.
+  rewrite (C17.Properties.partition_is_stable_counting_sort P W C keyf cv argsort nthread npartition tstart pos wts
+             keys0 psort0 wsort0 H). discriminate.
+Qed.
+Print Assumptions partition_parallel_in_bounds.
+
+(* subsample zipper (cumsum of counts, per-file row ranges, per-halo copies of original then merged particles): for every
+   well-formed catalog and option set, zero-particle and cleaned-away halos, empty slabs and all-false filters included *)
+Theorem zipper_in_bounds :
+  forall (P Q : Type) (dec : P -> Q) cleaned passthrough filt load_ab (cat : list (C01.Model.slab P)) garbage,
+  C01.Spec.wf_catalog cleaned load_ab cat -> C01.Spec.filt_ok filt -> C01.Spec.ab_ok load_ab ->
+  is_ok (C01.Model.load dec cleaned passthrough filt load_ab cat garbage) = true.
+Proof. exact C01.Properties.zipper_safe. Qed.
+Print Assumptions zipper_in_bounds.
